@@ -2,6 +2,8 @@
 pub mod checks;
 pub mod dynbook;
 pub mod engine;
+pub mod envcase;
+pub mod envs;
 pub mod gen;
 pub mod market;
 pub mod model;
